@@ -15,3 +15,45 @@ inductive RedirClass
 deriving DecidableEq, Repr
 
 end KM.Site
+
+namespace KM.Site
+
+/-- class of the mask expression handed to `checkAuth` -/
+inductive Mask
+  | any           -- AuthTypeAny
+  | webui         -- state.getRequiredWebUIAuthLevel()
+  | webuiKmx509   -- state.getRequiredWebUIAuthLevel() | AuthTypeKeymasterX509
+  | ipcert        -- AuthTypeIPCertificate
+  | unknown
+deriving DecidableEq, Repr
+
+structure Route where
+  service : Bool            -- registered on the service multiplexer (else: admin port)
+  path : List Char
+  handler : List Char
+  conditional : Bool        -- registered under an `if` in main()
+  sealedGuard : Bool        -- handler tests the signer / calls sendFailureToClientIfLocked
+  sealedFirst : Bool        -- … before it calls checkAuth
+  masks : List Mask         -- masks of all checkAuth calls reachable in the handler (helpers inlined)
+  adminGate : Bool          -- goes through sendFailureToClientIfNonAdmin
+deriving DecidableEq, Repr
+
+end KM.Site
+
+namespace KM.Site
+
+/-- test attached to one clause of certGenHandler's sufficiency loop -/
+inductive ClauseTest
+  | always                 -- `certPref == proto.X` alone
+  | hasAll (bit : Nat)     -- `&& (authData.AuthType & C) == C`
+  | unknown
+deriving DecidableEq, Repr
+
+structure Clause where
+  pref : List Char          -- the string the operator writes in the config
+  prefConst : List Char     -- name of the proto constant (AuthTypeX)
+  bitConst : List Char      -- name of the AuthType bit constant tested ("" for `always`)
+  test : ClauseTest
+deriving DecidableEq, Repr
+
+end KM.Site
